@@ -5,7 +5,7 @@ from vlib import Corr, Search, Failure
 
 ID = 'C23'
 LEVEL = 'proof'
-PROPS = ['Props/C23.v']
+PROPS = ['Props/C23.v', 'Findings/C23.v']
 from py2coq import containsorder
 GEN = [('Gen/ContainsOrder.v', containsorder.generate)]
 EXPLANATION = ('Two parts. (1) A Coq 8.16.1 proof, closed under the global context, of the pure lemma C23_batch_criteria: for every number of key '
@@ -112,6 +112,11 @@ def gen_program(rng):
             elif c < 0.6 and courses: steps.append([rng.choice(['add', 'add_rev']), sv, list(rng.choice(courses)[:2])])
             elif c < 0.75 and courses: steps.append([rng.choice(['remove', 'remove_rev']), sv, list(rng.choice(courses)[:2])])
             else: steps.append(['set_group', sv, rng.choice([None] + [g[0] for g in groups])])
+        elif r < 0.98 and vars_['G'] and students:
+            gv = rng.choice(vars_['G'])
+            sp = rng.choice(students)[0]
+            steps.append([rng.choice(['gadd', 'gremove', 'gremove']), gv, sp])
+            steps.append(['coll', gv, 'students', rng.choice(['count', 'len', 'list', 'is_empty'])])
         else:
             steps.append(['flush'])
     return {'data': data, 'steps': steps}
@@ -140,6 +145,10 @@ FIXED = [
      'steps': [['select', 'ls', 'S', None], ['get', 'c', 'C', ['chem', 1]], ['get', 's', 'S', 1], ['coll', 'c', 'students', 'contains', 1],
                ['add', 's', ['chem', 1]], ['coll', 'c', 'students', 'contains', 1], ['remove_rev', 's', ['chem', 1]], ['coll', 'c', 'students', 'contains', 1],
                ['add_rev', 's', ['chem', 1]], ['coll', 'c', 'students', 'contains', 1], ['coll', 'c', 'students', 'list']]},
+    # one-to-many collection changed from the group side, count known (prefetched) vs unknown
+    {'data': {'groups': [[1, 'g1']], 'students': [[1, 's1', None, 1], [2, 's2', None, 1], [3, 's3', None, None]], 'courses': [], 'enrol': []},
+     'steps': [['get', 'g', 'G', 1], ['select', 'ls', 'S', None], ['gremove', 'g', 1], ['coll', 'g', 'students', 'count'], ['coll', 'g', 'students', 'len'],
+               ['gadd', 'g', 3], ['coll', 'g', 'students', 'count'], ['coll', 'g', 'students', 'list']]},
 ]
 
 
@@ -190,7 +199,9 @@ def gen_coll_history(rng):
         if k in ('contains', 'add', 'remove', 'add_rev', 'remove_rev'): ops.append([k, rng.randrange(n)])
         elif k == 'other_len': ops.append([k, rng.choice([2, 3])])
         else: ops.append([k])
-    return {'regime': rng.choice(['default', 'np0', 'nphuge', 'lazy']), 'courses': n, 'rows': rows, 'others': others,
+    kind = rng.choice(['m2m', 'm2m', 'o2m'])
+    if kind == 'o2m': ops = [(['len'] if o[0] == 'other_len' and rng.random() < 0.5 else ([o[0]] if o[0] == 'other_len' else o)) for o in ops]
+    return {'kind': kind, 'regime': rng.choice(['default', 'np0', 'nphuge', 'lazy']), 'courses': n, 'rows': rows, 'others': others,
             'preload': rng.choice(['none', 'none', 'partial', 'full']), 'ops': ops}
 
 
@@ -199,12 +210,18 @@ def coll_histories(ctx, n):
     return [gen_coll_history(rng) for _ in range(n)]
 
 
+def o2m_repaired():
+    """True when /repo's SetInstance.remove skips its tail for one-to-many collections (proposed repair applied)"""
+    try: return 'one-to-many: reverse_remove (called through the item)' in open(os.path.join(vlib.REPO, 'pony/orm/core.py')).read()
+    except IOError: return False
+
+
 def csd(sd):
     if sd is None: return '(mksd [] false [] [] None None)'
     nl = lambda xs: '[' + '; '.join(str(x) for x in xs) + ']'
     return '(mksd %s %s %s %s %s %s)' % (nl(sd['items']), 'true' if sd['full'] else 'false', nl(sd['added']), nl(sd['removed']),
                                          'None' if sd['absent'] is None else '(Some %s)' % nl(sd['absent']),
-                                         'None' if sd['count'] is None else '(Some %d)' % sd['count'])
+                                         'None' if sd['count'] is None else '(Some (%d)%%Z)' % sd['count'])
 
 
 def coll_exprs(h, steps):
@@ -218,24 +235,36 @@ def coll_exprs(h, steps):
         R, S, RA, SA = nl(rb), csd(sb), nl(ra), csd(sa)
         inv = 'inv_b %s %s && inv_b %s %s' % (R, S, RA, SA)
         k = op[0]
+        o2m = h.get('kind') == 'o2m'
         if k in ('len', 'iter'):
             val = ('Nat.eqb (length r) %d' % res[1]) if k == 'len' else 'same_elems r %s' % nl(res[1])
             e = "let '(r, (rows1, sd1)) := do_copy %s %s in %s && same_elems rows1 %s && sd_same sd1 %s" % (R, S, val, RA, SA)
         elif k == 'count':
-            e = "let '(n, sd1) := do_count %s %s in Nat.eqb n %d && sd_same sd1 %s" % (R, S, res[1], SA)
+            e = "let '(n, sd1) := do_count %s %s in Z.eqb n (%d)%%Z && sd_same sd1 %s" % (R, S, res[1], SA)
         elif k == 'is_empty':
             first = '(fun _ => %s)' % ('Some %d' % sa['items'][0] if (sa and sa['items'] and not res[1]) else 'None')
             e = "let '(b, (rows1, sd1)) := do_is_empty %s %s %s in Bool.eqb b %s && same_elems rows1 %s && sd_same sd1 %s" % (
                 first, R, S, 'true' if res[1] else 'false', RA, SA)
+        elif k == 'contains' and o2m:      # answered from the item's own attribute: must be membership in the abstract collection; SetData untouched
+            e = 'Bool.eqb (memn %d (abstract %s %s)) %s && same_elems %s %s' % (op[1], R, S, 'true' if res[1] else 'false', R, RA)
+            if sb is not None: e += ' && sd_same %s %s' % (S, SA)
         elif k == 'contains':
             e = "let '(b, (rows1, sd1)) := do_contains %d %s %s in Bool.eqb b %s && same_elems rows1 %s" % (op[1], R, S, 'true' if res[1] else 'false', RA)
             if sb is not None: e += ' && sd_same sd1 %s' % SA
+        elif k == 'add' and o2m: e = 'sd_same (do_add_o (fun _ => true) %d %s %s) %s && same_elems %s %s' % (op[1], R, S, SA, R, RA)
+        elif k == 'remove' and o2m: e = 'sd_same (' + ('do_remove_o_fixed' if o2m_repaired() else 'do_remove_o') + ' (fun _ => true) %d %s %s) %s && same_elems %s %s' % (op[1], R, S, SA, R, RA)
         elif k == 'add': e = 'sd_same (do_add %d %s %s) %s && same_elems %s %s' % (op[1], R, S, SA, R, RA)
         elif k == 'remove': e = 'sd_same (do_remove %d %s %s) %s && same_elems %s %s' % (op[1], R, S, SA, R, RA)
         elif k == 'flush' and sb is not None and (sb['added'] or sb['removed']):
             e = 'same_elems (flush_rows %s %s) %s && sd_same (flush_sd %s) %s' % (R, S, RA, S, SA)
         else: e = 'true'
-        out.append((st, '(%s) && (%s)' % (inv, e)))
+        if o2m:
+            # the recorded one-to-many remove() defect breaks the invariant: from a state where it holds the model step must reproduce
+            # the real step; the invariant is demanded afterwards except after a remove (and after anything that starts from a broken state)
+            inv_a = 'true' if (k in ('remove', 'remove_rev') and not o2m_repaired()) else 'inv_b %s %s' % (RA, SA)
+            out.append((st, '(negb (inv_b %s %s)) || ((%s) && %s)' % (R, S, e, inv_a)))
+        else:
+            out.append((st, '(%s) && (%s)' % (inv, e)))
     return out
 
 
@@ -328,10 +357,12 @@ def judge(prog, r):
             got, want = (o[k] if k < len(o) else None), (base[k] if k < len(base) else None)
             kind = 'exception' if (got and got[0] != 'v') or (want and want[0] != 'v') else 'value'
             what = 'step %d %s: default observes %s, %s observes %s' % (k, json.dumps(step), json.dumps(want), regime, json.dumps(got))
+            how = step[3] if step[0] == 'coll' else (step[2][1] if step[0] == 'each' and not isinstance(step[2], str) else None)
             # root-cause class: an unflushed many-to-many add/remove earlier in the session (flushed by a later query) leaves stale
             # SetData.added/removed on one side; count() and add()/remove() then behave differently depending on what was loaded
+            if how in ('count', 'is_empty') and step[2] == 'students' and any(x[0] == 'gremove' for x in prog['steps'][:k]):
+                return ('o2m-remove:%s-differs' % how, what)
             changed = any(x[0] in ('add', 'remove') for x in prog['steps'][:k])
-            how = step[3] if step[0] == 'coll' else (step[2][1] if step[0] == 'each' and not isinstance(step[2], str) else None)
             if changed and step[0] in ('add', 'remove'): return ('m2m-change-then-flush:%s-differs' % step[0], what)
             if changed and how == 'count': return ('m2m-change-then-flush:count-differs', what)
             return ('%s-differs-from-default:%s:%s' % (regime, what_step, kind), what)
@@ -375,7 +406,8 @@ LEVEL_TEXT = ('Machine-checked proof (Coq 8.16.1, closed) of the collection core
               'traversal) is checked differentially under five regimes.')
 LEVEL_NOTE = ('Proved over hand models (Model/C23Load.v, C23SetData.v, C23Scalar.v, C23Batch.v) for ONE owner and its many-to-many collection without concurrent '
               'writers; the tie is vm_compute correspondence: the model invariant holds on every recorded real SetData, every own-side operation reproduces the '
-              'recorded result and next SetData (~800 steps quick, ~8000 thorough), the criteria AST equals the real one. One-to-many collections, the reverse-side '
-              'bookkeeping (db_reverse_add), seeds and prefetch traversal order are covered only by the five-regime differential runs on SQLite.')
+              'recorded result and next SetData (~800 steps quick, ~8000 thorough), the criteria AST equals the real one. One-to-many collections share the load / count / is_empty / '
+              'iteration model and have their own add / remove (item loaded; the recorded remove() double bookkeeping is refuted in Findings/C23.v); the reverse-side '
+              'bookkeeping (db_reverse_add) enters only as a hypothesis; seeds and prefetch traversal order are covered only by the five-regime differential runs on SQLite.')
 TECHNIQUE = 'Coq proof of the pure batch-criteria lemma (hand model, vm_compute structural tie, SQLite semantic validation) + five-regime differential execution of generated programs'
 DESIGN_REF = 'DESIGN.md section 5, C23'
